@@ -125,8 +125,8 @@ def event(d, mode, q, seq, nograph=False):
 
 
 def record(ctx, kind, d, q, mode, variants, obs, want=None):
-    cl = "failed" if "failed" in obs else ("foreign" if None in obs["seq"] else
-                                           "set" if want is not None and sorted(obs["seq"]) != sorted(want) else "order")
+    cl = "failed" if "failed" in obs else ("foreign" if None in obs["seq"] else "rejected" if want is None else
+                                           "set" if sorted(obs["seq"]) != sorted(want) else "order")
     # descriptive attributes of the input (for known-finding matchers; no verdict is derived from them)
     traits = {"tip_in_ends": bool(set(q["tips"]) & set(q["ends"])), "has_ends": bool(q["ends"]), "several_tips": len(q["tips"]) > 1,
               "equal_times": len(set(d["time"])) < len(d["time"]), "first_parent": mode.endswith("_fp"),
